@@ -125,7 +125,11 @@ def run(prop: str, mod, rep: Report):
         if os.path.exists(os.path.join(d, "patch.diff")):
             mutants.append(dict(id="SEED-" + os.path.basename(d), diff=os.path.join(d, "patch.diff"), rule=None, what="stored seeded change", file=os.path.basename(d)))
     twins += [dict(id=f"{prop}-GLOBAL-A", **{"global": "A"}, what="whole package re-printed by ast.unparse"),
-              dict(id=f"{prop}-GLOBAL-B", **{"global": "B"}, what="whole package re-printed with every function-local variable renamed")]
+              dict(id=f"{prop}-GLOBAL-B", **{"global": "B"}, what="whole package re-printed with every function-local variable renamed"),
+              dict(id=f"{prop}-GLOBAL-C", **{"global": "C"}, what="whole package with inverse spellings (function -> method form, max argument order)"),
+              dict(id=f"{prop}-GLOBAL-D", **{"global": "D"}, what="whole package with every if/else swapped under the negated condition"),
+              dict(id=f"{prop}-GLOBAL-E", **{"global": "E"}, what="whole package with every returned expression bound to a temporary first"),
+              dict(id=f"{prop}-GLOBAL-F", **{"global": "F"}, what="whole package with De Morgan applied to every compound if-condition")]
     R = rep.rule("SELFVAL", "seeded mutants are reported by the named rule; behaviour-preserving twins leave the verdict set unchanged")
     base = rep.verdict_set()
     from .repo import REPO_ROOT
